@@ -206,6 +206,29 @@ type nodeRig struct {
 	issued             []uint64
 	inflight           int
 	delayFailingCancel bool
+	subLogs            map[int][]subEv // per subscriber id (harness subscribers other than the reference one)
+	unsubs             map[int]datatransfer.Unsubscribe
+}
+
+// one call of a harness subscriber
+type subEv struct {
+	K        chidTok
+	Code     datatransfer.EventCode
+	Terminal bool
+}
+
+func (r *nodeRig) subCb(id int) datatransfer.Subscriber {
+	return func(evt datatransfer.Event, st datatransfer.ChannelState) {
+		if st.ChannelID() == r.sentinel {
+			return
+		}
+		r.mu.Lock()
+		if r.subLogs == nil {
+			r.subLogs = map[int][]subEv{}
+		}
+		r.subLogs[id] = append(r.subLogs[id], subEv{r.chidTokOf(st.ChannelID()), evt.Code, channels.IsChannelTerminated(st.Status())})
+		r.mu.Unlock()
+	}
 }
 
 func (r *nodeRig) chidTokOf(c datatransfer.ChannelID) chidTok {
@@ -572,6 +595,7 @@ type nStep struct {
 	Sendf  []bool
 	Trf    []bool
 	Vals   []valSpec
+	Sub    int // open: per-transfer subscriber id (0 none); gsubscribe / gunsubscribe: global subscriber id
 }
 
 func coqBools(b []bool) string {
@@ -646,7 +670,13 @@ func (s nStep) coq() string {
 }
 
 func (s nStep) String() string {
+	if s.Kind == "gsubscribe" || s.Kind == "gunsubscribe" {
+		return fmt.Sprintf("%s(%d)", s.Kind, s.Sub)
+	}
 	x := s.inputCoq()
+	if s.Sub != 0 {
+		x += fmt.Sprintf(" with-subscriber(%d)", s.Sub)
+	}
 	x = strings.ReplaceAll(x, "%N", "")
 	x = strings.ReplaceAll(x, "%Z", "")
 	if len(s.Sendf)+len(s.Trf)+len(s.Vals) > 0 {
@@ -745,10 +775,14 @@ func (r *nodeRig) exec(s nStep, openIndex int) nObs {
 			if s.Base != 0 {
 				base = cidOf(s.Base)
 			}
+			var opts []datatransfer.TransferOption
+			if s.Sub != 0 {
+				opts = append(opts, datatransfer.WithSubscriber(r.subCb(s.Sub)))
+			}
 			if s.D == 0 {
-				chid, err = r.mgr.OpenPushDataChannel(ctx, peerOf(s.To), v, base, nodeOf(s.Sel))
+				chid, err = r.mgr.OpenPushDataChannel(ctx, peerOf(s.To), v, base, nodeOf(s.Sel), opts...)
 			} else {
-				chid, err = r.mgr.OpenPullDataChannel(ctx, peerOf(s.To), v, base, nodeOf(s.Sel))
+				chid, err = r.mgr.OpenPullDataChannel(ctx, peerOf(s.To), v, base, nodeOf(s.Sel), opts...)
 			}
 			if err == nil {
 				c := r.chidTokOf(chid)
@@ -828,6 +862,15 @@ func (r *nodeRig) exec(s nStep, openIndex int) nObs {
 			err = r.handler.OnChannelCompleted(k, cerr)
 		case "crash":
 			r.restartProcess(s.Rereg)
+		case "gsubscribe":
+			if r.unsubs == nil {
+				r.unsubs = map[int]datatransfer.Unsubscribe{}
+			}
+			r.unsubs[s.Sub] = r.mgr.SubscribeToEvents(r.subCb(s.Sub))
+		case "gunsubscribe":
+			if u := r.unsubs[s.Sub]; u != nil {
+				u()
+			}
 		}
 		if obs.Ret != 77 {
 			obs.Ret = errClass(err)
